@@ -490,7 +490,9 @@ Definition boot (b32 blnk flashcfg : Z) (ins : list input) (rs : list shutter) :
                                            r_tlt := -1; r_step := 0; r_abr := false |}
                                    else set_cal r (r_t1 r) (r_t2 r) (r_aco r) (r_acc r) (r_pos r) (-1) 0 false) rs |} in
   let o0 := if flashcfg =? 0 then [Factory] else [] in
-  let o9 := if flashcfg =? 0 then [CfgFlash 1 1 15] else [] in
+  (* flashcfg 2/3/4: a valid record of the v6 / v5B / v5A layout: migrated and saved once, settings kept *)
+  let o9 := if flashcfg =? 0 then [CfgFlash 1 1 15]
+            else if (2 <=? flashcfg) && (flashcfg <=? 4) then [CfgFlash 1 1 b] else [] in
   if incomplete b then let '(s1, o) := cfgmode_start s in (s1, o0 ++ o ++ o9) else (s, o0 ++ o9).
 
 Definition rs_env (s : st) (idx t1 t2 aco acc pos tlt step abr : Z) : st :=
